@@ -67,6 +67,8 @@ struct Model {
     bool build_lattice() {
         if (L) return fail.empty();
         if (sc.count("den")) box.den = sc["den"].get<long>();
+        // "unit_log2": k -- every amplitude of the model is given in units of 2^-k (an exact rescaling of H: eigenvectors unchanged, spectrum scaled)
+        if (sc.value("unit_log2", 0)) box.den = box.den << sc["unit_log2"].get<int>();
         L = box.lat[1];
         return stage("lattice", [&] {
             for (const json& s : sc.at("sites")) L->addSite(s[0].get<std::string>(), s[1].get<int>(), s[2].get<int>());
@@ -425,21 +427,24 @@ struct Model {
 
     // C03: exact prepared matrix, then the eigen-system with residuals computed against that prepared matrix
     void q_c03(const json& q, json& r) {
-        r["sites"] = sc["sites"]; r["calls"] = sc["build"]; r["den"] = box.den;
+        const int ul = sc.value("unit_log2", 0);
+        const double unit = std::ldexp(1.0, -ul);          // everything below is logged relative to the model's energy unit
+        r["sites"] = sc["sites"]; r["calls"] = sc["build"];
         if (!build_blocks()) return;
+        r["den"] = box.den >> ul; r["unit_log2"] = ul;
         // a Hamiltonian object of its own, so that the prepared matrices are seen before compute() overwrites them
         Hamiltonian* H = nullptr;
         if (!stage("hamiltonian.prepare", [&] { H = new Hamiltonian(*IC, *HS, *S); H->prepare(world); })) return;
         r["M"] = M; r["tab"] = jq_index();
         long scale = q.value("scale", 16L);
-        r["scale"] = scale; r["entries"] = jq_hfock(scale, H);
+        r["scale"] = scale; r["entries"] = jq_hfock(scale << ul, H);
         std::vector<MatrixType> prepared;
         for (int b = 0; b < S->NumberOfBlocks(); ++b) prepared.push_back(H->getPart(BlockNumber(b)).getMatrix());
         if (!stage("hamiltonian.compute", [&] { H->compute(world); })) return;
         json b0 = jq_blocks(); r["block"] = b0["block"]; r["inner"] = b0["inner"]; r["sizes"] = b0["sizes"];
-        const double delta = 1e-10, qd = 1e-6;
+        const double delta = 1e-10, qd = 1e-6 * unit;
         json blocks = json::array();
-        double hnorm = 1.0;
+        double hnorm = unit;
         for (auto& Hm : prepared) if (Hm.size()) hnorm = std::max(hnorm, Hm.cwiseAbs().maxCoeff());
         double gmin = 1e300;
         for (int b = 0; b < S->NumberOfBlocks(); ++b) {
@@ -706,9 +711,28 @@ struct Model {
         for (const json& t : q.at("triples"))
             freqs.push_back(boost::make_tuple(sp * double(2 * t[0].get<long>() + 1), sp * double(2 * t[1].get<long>() + 1), sp * double(2 * t[2].get<long>() + 1)));
         json out = json::array();
+        // "container": the same components read through a TwoParticleGFContainer that stores the canonical representatives
+        // (i<=j, k<=l) of the requested quadruples: whether a request is a stored component or an alias (swapped pair(s), sign,
+        // permuted frequencies) depends on the order of the indices -- i.e. on site labels and ordering mode
+        std::unique_ptr<TwoParticleGFContainer> X4;
+        if (q.value("container", false)) {
+            std::set<IndexCombination4> init;
+            for (const json& qd : q.at("quads")) {
+                int i = qd[0].get<int>(), j = qd[1].get<int>(), k = qd[2].get<int>(), l = qd[3].get<int>();
+                init.insert(IndexCombination4(std::min(i, j), std::max(i, j), std::min(k, l), std::max(k, l)));
+            }
+            X4.reset(new TwoParticleGFContainer(*IC, *S, *H, *D, *C));
+            X4->prepareAll(init);
+            X4->computeAll(false, std::vector<freq_tuple>(), world);
+        }
         for (const json& qd : q.at("quads")) {
             int i = qd[0].get<int>(), j = qd[1].get<int>(), k = qd[2].get<int>(), l = qd[3].get<int>();
             json o = {{"q", qd}};
+            if (X4) {
+                json vc = json::array();
+                for (const json& t : q.at("triples")) vc.push_back(cj((*X4)(i, j, k, l)(t[0].get<long>(), t[1].get<long>(), t[2].get<long>())));
+                o["container"] = vc;
+            }
             auto mk = [&]() {
                 TwoParticleGF* x = new TwoParticleGF(*S, *H, C->getAnnihilationOperator(i), C->getAnnihilationOperator(j), C->getCreationOperator(k), C->getCreationOperator(l), *D);
                 x->prepare();
